@@ -292,6 +292,32 @@ pub fn run(ctx: &mut Ctx) {
             Err(er) => ctx.inconclusive(&format!("bundled voice: {}", er)),
         }
     }
+    // several voices with interpolation weights that do not sum to 1 bit-exactly (decimal
+    // fractions): the condition's own settings and their getters have nothing to do with them
+    {
+        use std::sync::Arc;
+        if let Ok(v) = jbonsai::model::load_htsvoice_file(&env.bundled_path) {
+            let v = Arc::new(v);
+            let n = ctx.n(120, 6000);
+            ctx.run_cases("several-voices", n, false, |ctx, rng, idx| {
+                let nv = *rng.pick(&[2usize, 3, 3, 6, 7]);
+                let Ok(mut e) = crate::env::engine_from_voices(vec![v.clone(); nv]) else {
+                    ctx.violation("engine-construction", J::from("copies of the bundled voice"));
+                    return;
+                };
+                if idx % 2 == 0 && nv == 3 {
+                    let iw = e.condition.get_interporation_weight_mut();
+                    let w = *rng.pick(&[[0.7, 0.2, 0.1], [0.1, 0.2, 0.7], [0.3, 0.3, 0.4], [0.6, 0.3, 0.1]]);
+                    for s in 0..3 {
+                        let _ = iw.set_gv(s, &w);
+                        let _ = iw.set_parameter(s, &w);
+                    }
+                    let _ = iw.set_duration(&w);
+                }
+                history(ctx, rng, &e, &env.bundled_ref, &format!("{} copies of the bundled voice", nv));
+            });
+        }
+    }
     let n = ctx.n(300, 40000);
     ctx.run_cases("generated", n, false, |ctx, rng, _| {
         let o = VoiceOpts::random(rng);
